@@ -146,7 +146,8 @@ def run(ctx):
     ctx.rule('C05-R5', 'the parser touches its input only through value-returning, bounds-checked StringReader members; the single go() is dominated by where()+2 < size()', 10)
     ctx.rule('C05-R6', 'every loop of the parser consumes input, leaves the loop, or counts a variable down on each iteration', 8)
     ctx.rule('C05-R7', 'string entry points reject trailing data: skip whitespace, then throw unless eof; std::string overload forwards with the flag', 3)
-    ctx.rule('C05-R8', 'numerals with a fraction or an exponent are classified as floats before the int/float decision', 3)
+    ctx.rule('C05-R8', 'numerals with a fraction or an exponent are classified as floats before the int/float decision; fraction digits are accumulated in floating point', 4)
+    ctx.rule('C05-R9', 'whitespace skipping stops at every byte other than space, tab, CR, LF (and the `//` of the comment extension): evaluated for all 256 byte values under both modes', 512)
     u = ctx.unit(repo_unit('JSON.cc'))
     us = ctx.unit(repo_unit('Strings.cc'))
     reader, cptr, strs = parse_fns(u)
@@ -378,6 +379,74 @@ def run(ctx):
         label = ''.join(sorted(chr(c) for c in chars))
         ctx.check(sets_false, R, 'marker|' + label, x, 'numeral containing %r is classified as a float' % label,
                   'a numeral containing %r keeps is_int = true: %s is parsed as an integer (5e-1 becomes 0)' % (label, 'exponent form' if 'e' in label else 'fraction'))
+        if '.' in label:
+            bad_acc = []
+            for lp in [y for y in walk(then) if y.get('kind') in LOOPS]:
+                for a in walk(lp):
+                    if a.get('kind') in ('BinaryOperator', 'CompoundAssignOperator') and a.get('opcode') in ('=', '+=', '-=', '*=', '/=', '<<=', '|=') and (ref_decl(a['inner'][0]) or {}).get('kind') == 'VarDecl':
+                        if (dtype(a['inner'][0]) or '') not in ('double', 'float', 'long double'):
+                            bad_acc.append(a)
+            ctx.check(not bad_acc, R, 'fraction|floating-accumulator', bad_acc[0] if bad_acc else x, 'fraction digits are accumulated in floating point',
+                      'fraction digits are accumulated in the fixed-width integer `%s`: a fraction with more digits than the type holds overflows and the numeral parses to a wrong value' % (src_text(bad_acc[0], 60) if bad_acc else ''))
     # the final int/float decision follows every marker branch
     ctx.check(all(x.get('_off', 0) < dec.get('_off', 0) for x, _, _ in markers), R, 'decision-after-markers', dec, 'int/float decision is taken after scanning', 'the int/float decision precedes the fraction/exponent scan')
+    check_whitespace_set(ctx, u, S, sflag)
     ctx.note('Entry points: JSON::parse(StringReader&, bool), (const char*, size_t, bool), (const std::string&, bool); callees resolved across JSON.cc and Strings.cc.')
+
+
+def check_whitespace_set(ctx, u, S, sflag):
+    """C05-R9: on the first character (initial state of the scanner), `return` (stop skipping) is
+    reached iff the byte is not one of the four JSON whitespace characters; '/' may depend on the
+    following byte when extensions are enabled.  Decided by constant evaluation of the dominating
+    conditions for each of the 256 byte values (E-BITS constant folding; helpers are inlined)."""
+    from bits import Interp, const_bv, T as TOP
+    R = 'C05-R9'
+    sbody = body_of(S)
+    rets = [x for x in walk(sbody) if x.get('kind') == 'ReturnStmt']
+    ctx.require(len(rets) == 1, 'skip_whitespace_and_comments: expected exactly one return (the stop-skipping exit)')
+    ret = rets[0]
+    loops = [x for x in walk(sbody) if x.get('kind') in LOOPS]
+    ctx.require(len(loops) == 1, 'skip_whitespace_and_comments: expected one loop')
+    chv = [vd for vd in walk(loops[0]) if vd.get('kind') == 'VarDecl' and (dtype(vd) or '') in ('char', 'signed char', 'unsigned char', 'int8_t', 'uint8_t')]
+    ctx.require(len(chv) == 1, 'skip_whitespace_and_comments: current-character variable not found')
+    chd = chv[0]
+    signed = (dtype(chd) or '') in ('char', 'signed char', 'int8_t')
+    init_env = {}
+    I = Interp(u)
+    for s_ in preceding_statements(loops[0]):
+        if s_.get('kind') == 'DeclStmt':
+            for vd in kids(s_):
+                if vd.get('kind') == 'VarDecl' and kids(vd):
+                    init_env[vd['id']] = I.cast(I.eval(kids(vd)[-1], {}), dtype(vd))
+    facts = [f for f in path_facts(ret) if not any(y is loops[0] for y in [f.cond]) ]
+    # drop the loop condition itself (input not exhausted)
+    lcond = while_parts(loops[0])[0] if loops[0].get('kind') == 'WhileStmt' else None
+    facts = [f for f in facts if f.cond is not lcond]
+    WS = {0x20, 0x09, 0x0D, 0x0A}
+    for strict in (0, 1):
+        for b in range(256):
+            env = dict(init_env)
+            env[sflag['id']] = const_bv(strict, 1)
+            env[chd['id']] = const_bv(b, 8, signed)
+            reach = 1
+            I.notes = []
+            for f in facts:
+                c = I.truth(I.eval(f.cond, env))
+                if c not in (0, 1):
+                    c = TOP
+                elif not f.pol:
+                    c = 1 - c
+                if c == 0:
+                    reach = 0
+                    break
+                if c == TOP:
+                    reach = TOP
+            want = 0 if b in WS else 1
+            ok = reach == want or (b == 0x2F and not strict and reach == TOP)
+            why = ''
+            if not ok:
+                why = 'byte 0x%02X (%s mode): %s' % (b, 'strict' if strict else 'extended',
+                      'is skipped as whitespace or cannot be shown to stop the skip' if want == 1 else 'stops the skip although it is JSON whitespace')
+                if I.notes:
+                    why += ' [' + I.notes[0].split(': ', 1)[-1] + ']'
+            ctx.check(ok, R, 'skip|%s|byte-%02X' % ('strict' if strict else 'ext', b), ret, 'byte 0x%02X %s' % (b, 'is skipped' if want == 0 else 'ends the skip'), why, nontrivial=(b in WS or b in (0x2F, 0x80, 0xA0, 0x00, 0x7F)))
